@@ -340,6 +340,35 @@ def applyFields (T : Tables) : (Attr → PyVal) → List (Nat × PyVal) → (Att
     | some a => applyFields T (setAttr f a v) rest
     | none => applyFields T f rest
 
+/-- `parseMessage` after the header has been decoded: `_mtype` lookup, the raw slices, serial, flags, the
+`setattr` loop, the body. -/
+def parseAfterHeader {β : Type} (T : Tables) (C : BodyCodec β) (rawMessage : Bytes) (lendian : Bool)
+    (oobFDs : Option (List PyVal)) (h : HeaderVals) : Except PyErr (Msg β) :=
+  match lookupClass T h.mtype with
+  | none => .error .marshalling                     -- Unknown Message Type
+  | some cls =>
+    let nheader := h.nheader
+    let npad := padLen 8 nheader                    -- nheader % 8 and (8 - nheader % 8) or 0
+    let rawHeader := rawMessage.take nheader
+    let rawPadding := (rawMessage.drop nheader).take npad
+    let rawBody := rawMessage.drop (nheader + npad)
+    let attrs := applyFields T noAttrs h.fields
+    let m : Msg β := { cls := cls, expectReply := h.flags % 2 = 0, autoStart := h.flags / 2 % 2 = 0,
+                       attrs := attrs, body := none, serial := h.serial, rawHeader := rawHeader,
+                       rawPadding := rawPadding, rawBody := rawBody }
+    let sigv := attrs .signature
+    if truthy sigv then
+      -- repair d5434a8: `if not isinstance(m.signature, str) or len(m.signature) > 255: raise MarshallingError`
+      match sigv with
+      | .str _ sg =>
+        if sg.length > 255 then .error .marshalling
+        else
+          match C.unmarshal sg rawBody lendian oobFDs with
+          | .error x => .error x
+          | .ok b => .ok { m with body := some b }
+      | _ => .error .marshalling
+    else .ok m
+
 /-- `parseMessage(rawMessage, oobFDs)` -/
 def parseMessage {β : Type} (T : Tables) (C : BodyCodec β) (rawMessage : Bytes) (oobFDs : Option (List PyVal)) :
     Except PyErr (Msg β) :=
@@ -351,31 +380,7 @@ def parseMessage {β : Type} (T : Tables) (C : BodyCodec β) (rawMessage : Bytes
     else
     match unmarshalHeader T.align lendian rawMessage oobFDs with
     | .error x => .error x
-    | .ok h =>
-      match lookupClass T h.mtype with
-      | none => .error .marshalling                     -- Unknown Message Type
-      | some cls =>
-        let nheader := h.nheader
-        let npad := padLen 8 nheader                    -- nheader % 8 and (8 - nheader % 8) or 0
-        let rawHeader := rawMessage.take nheader
-        let rawPadding := (rawMessage.drop nheader).take npad
-        let rawBody := rawMessage.drop (nheader + npad)
-        let attrs := applyFields T noAttrs h.fields
-        let m : Msg β := { cls := cls, expectReply := h.flags % 2 = 0, autoStart := h.flags / 2 % 2 = 0,
-                           attrs := attrs, body := none, serial := h.serial, rawHeader := rawHeader,
-                           rawPadding := rawPadding, rawBody := rawBody }
-        let sigv := attrs .signature
-        if truthy sigv then
-          -- repair d5434a8: `if not isinstance(m.signature, str) or len(m.signature) > 255: raise MarshallingError`
-          match sigv with
-          | .str _ sg =>
-            if sg.length > 255 then .error .marshalling
-            else
-              match C.unmarshal sg rawBody lendian oobFDs with
-              | .error x => .error x
-              | .ok b => .ok { m with body := some b }
-          | _ => .error .marshalling
-        else .ok m
+    | .ok h => parseAfterHeader T C rawMessage lendian oobFDs h
 
 /-! ### The observable content of a message (what "parses back intact" compares) -/
 
